@@ -110,15 +110,24 @@ def c08_queries(tier):
     return qs
 
 
+def inductive_query(prefix, backend='idn2', **kw):
+    return Query('%s-api-inductive-step-%s' % (prefix, backend), 'c_inductive.c', repo=['partial/%s/eav.c' % backend, 'src/eav.c'],
+                 unwind=CB_UNW, leak=True, idn=None if backend == 'idn2' else backend,
+                 covers=['end', 'validated', 'leave-6531', 'enter-6531', 'failed-setup-in-6531', 'accept-after-idn-error'],
+                 bounds={'pre-state': 'ANY eav_t satisfying the representation invariant INV (harness/c_inductive.c)', 'operations': 1,
+                         'settings': 'any int / bool', 'callback results': 'uninterpreted'},
+                 functions=API_FN, note='one inductive step from an arbitrary invariant-satisfying state + base case eav_init: histories of any length', **kw)
+
+
 def c13_queries(tier):
     K = 4 if tier == 'quick' else 6
-    return [history_query('C13', K, timeout=3000)]
+    return [history_query('C13', K, timeout=3000), inductive_query('C13')]
 
 
 def c15_queries(tier):
     K = 4 if tier == 'quick' else 6
     qs = [single_query('C15'), history_query('C15', K, covers=['end', 'two-validations', 'failed-setup-after-validation'], timeout=3000),
-          tld_query('C15', 2, 63)]
+          tld_query('C15', 2, 63), inductive_query('C15')]
     N = 6 if tier == 'quick' else 9
     for m, name, src, fn in MODES:
         srcs = [src] + (['src/utf8_decode.c'] if m == 3 else [])
@@ -296,7 +305,7 @@ def c19_queries(tier):
     return [utf8dom_query('C19', N, N),
             email_query('C19', 3, 16 if tier == 'quick' else 40, covers=['end', 'idn-error', 'accepted-hostname']),
             single_query('C19'),
-            history_query('C19', K, covers_override=None, timeout=3000)]
+            history_query('C19', K, covers_override=None, timeout=3000), inductive_query('C19')]
 
 
 def c16_queries(tier):
@@ -412,6 +421,7 @@ def c06_queries(tier):
     qs.append(history_query('C06', 3 if tier == 'quick' else 5, timeout=3000,
                             covers=['end', 'two-validations']))
     qs.append(uninit_query('C06'))
+    qs.append(inductive_query('C06'))
     qs.append(tldtable_query('C06'))
     return qs
 
@@ -460,6 +470,7 @@ def c18_queries(tier):
             h.optional_covers.append('context-recreated')
         qs.append(h)
         qs.append(uninit_query('C18', b))
+        qs.append(inductive_query('C18', b))
         u = utf8dom_query('C18', 8, 8, b)
         if b == 'idnkit':
             u.covers = [c for c in u.covers if c != 'fault-with-buffer']
